@@ -33,14 +33,14 @@ Section W.
   Theorem sync_loop_w_nofault o now fs faults wf m lag :
     (forall p l, wf p l = WOk) ->
     forall stripes stop it nfail c par ne ns ni,
-      sync_loop_w hashf bs nlev o now fs faults wf m lag stripes stop it [] nfail c par ne ns ni =
-      mkWRun (sync_loop hashf bs nlev o now fs faults stripes stop c par ne ns ni) [] nfail.
+      let r := sync_loop_w hashf bs nlev o now fs faults wf m lag stripes stop it [] nfail c par ne ns ni in
+      w_run r = sync_loop hashf bs nlev o now fs faults stripes stop c par ne ns ni /\ w_lost r = [] /\ w_nfail r = nfail.
   Proof.
-    intro Hok. induction stripes as [|pos rest IH]; intros stop it nfail c par ne ns ni; cbn [sync_loop_w sync_loop]; [reflexivity|].
+    intro Hok. induction stripes as [|pos rest IH]; intros stop it nfail c par ne ns ni; cbn [sync_loop_w sync_loop]; [repeat split|].
     destruct (negb (stripe_enabled o _)); [apply IH|].
-    destruct stop as [[|k]|]; [reflexivity | |];
+    destruct stop as [[|k]|]; [repeat split | |];
       (cbv zeta;
-       destruct (so_bail (sync_stripe hashf bs nlev o now ni c (map (fun lv => nth pos lv PNone) par) fs (faults pos) pos)); [reflexivity|];
+       destruct (so_bail (sync_stripe hashf bs nlev o now ni c (map (fun lv => nth pos lv PNone) par) fs (faults pos) pos)); [repeat split|];
        destruct (so_write (sync_stripe hashf bs nlev o now ni c (map (fun lv => nth pos lv PNone) par) fs (faults pos) pos)) as [v|];
        [ rewrite !count_levels_ok by (auto); cbn [Nat.add Nat.eqb negb app filter sum_eio sum_err fold_right Nat.ltb Nat.leb andb];
          rewrite write_levels_ok by auto; apply IH
